@@ -391,6 +391,236 @@ def X12(ctx: Ctx) -> RuleResult:
     return r
 
 
+# ====================================================================== X13
+def X13(ctx: Ctx, mode: str = 'access') -> RuleResult:
+    if mode == 'asserts':
+        r = RuleResult('X14', 'kind assertions hold: an `assert isinstance(x, C)` / `assert x.is_<kind>` about a value of declared AST class is implied by the kind tests the path has made on x (is_<kind> flags by the kind table, isinstance, arity, operator tests) - it documents what the tests established, it does not filter; a path that reaches it with a weaker test raises AssertionError on a well-formed input')
+    else:
+        r = RuleResult('X13', 'attribute access follows the node kind: an attribute that only some AST classes have (.operator, .operand, .a/.b, .arity, .value, .name, .function, .index, ...) is read from a value declared with a wider class only where the path - or the earlier operands of the same and/or/conditional expression - has narrowed it to classes that all have it (is_<kind> flags by the kind table, isinstance tests and asserts, arity == 1/2, tests on its operator); otherwise a well-formed input of another kind raises AttributeError')
+    import json
+    from .report import VERIF
+    from .terms import (Attr, BoundMethod, Call, ClassRef, Comp, Const, Evaluator, Ext, Fmt, Ite, New, Op, Store, Sub, Sym, Template, Term, TupleT, default_inline, unglobal)
+    m = ctx.model
+    kinds = json.loads((VERIF / 'oracle' / 'kind_flags.json').read_text())['true_in']
+    ast_names = {k.name for k in m.ast_classes()}
+
+    def pol(f: FunctionInfo, d: int) -> bool:
+        # looked through: properties, one-line functions / methods, and small predicates (declared to return bool):
+        # these are the helpers that carry kind tests (is_and(x), _is_negation(x), self._has_literal_index())
+        if f.kind == 'property':
+            return default_inline(f, d)
+        body = [st for st in f.node.body if not (isinstance(st, ast.Expr) and isinstance(st.value, ast.Constant))]
+        if len(body) == 1 and isinstance(body[0], ast.Return):
+            return default_inline(f, d)
+        return f.node.returns is not None and ast.unparse(f.node.returns) == 'bool' and default_inline(f, d)
+    ev = Evaluator(m, inline=pol)
+
+    def defines(cls, attr: str) -> bool:
+        return cls.field(attr) is not None or cls.resolve(attr) is not None or any(attr in k.class_assigns for k in cls.mro())
+
+    def facts_of(t: Term, pol_: bool, out: List):
+        """constraints (subject, universe -> classes still possible) that hold when t evaluates to pol_"""
+        while isinstance(t, Op) and t.op == 'not' and len(t.args) == 1:
+            t, pol_ = t.args[0], not pol_
+        if isinstance(t, Op) and ((t.op == 'and' and pol_) or (t.op == 'or' and not pol_)):
+            for a in t.args:
+                facts_of(a, pol_, out)
+            return
+        if isinstance(t, Op) and ((t.op == 'or' and pol_) or (t.op == 'and' and not pol_)):
+            # one of the operands decides: a subject constrained by every operand is constrained by the union
+            per = []
+            for a in t.args:
+                fa: List = []
+                facts_of(a, pol_, fa)
+                per.append(fa)
+            if per:
+                for subj in {x for fa in per for x, _ in fa}:
+                    if True:
+                        # an operand that says nothing about the subject leaves every class possible
+                        fns = [[fn for y, fn in fa if y == subj] for fa in per]
+
+                        def union(u, fns=fns):
+                            out_: Set[str] = set()
+                            for group in fns:
+                                cur = set(u)
+                                for fn in group:
+                                    cur = fn(cur)
+                                out_ |= cur
+                            return out_
+                        out.append((subj, union))
+            return
+        if isinstance(t, Attr) and t.name in kinds:
+            ks = set(kinds[t.name])
+            out.append((t.base, (lambda u, ks=ks: u & ks) if pol_ else (lambda u, ks=ks: u - ks)))
+            return
+        if isinstance(t, Call) and isinstance(t.func, Ext) and t.func.name == 'isinstance' and len(t.args) == 2 and pol_:
+            ts = t.args[1].items if isinstance(t.args[1], TupleT) else (t.args[1],)
+            s_: Set[str] = set()
+            for x in ts:
+                if isinstance(x, ClassRef) and x.name in m.classes:
+                    s_ |= {k.name for k in m.subclasses(m.classes[x.name])}
+            out.append((t.args[0], lambda u, s_=s_: u & s_))
+            return
+
+        def only(name: str):
+            return lambda u: u & {k.name for k in m.subclasses(m.classes[name])} if name in m.classes else u
+        if isinstance(t, Op) and t.op == '==' and len(t.args) == 2 and isinstance(t.args[0], Attr) and t.args[0].name == 'arity' and isinstance(t.args[1], Const) and pol_:
+            if t.args[1].value in (1, 2):
+                out.append((t.args[0].base, only('HplUnaryOperator' if t.args[1].value == 1 else 'HplBinaryOperator')))
+            return
+        if isinstance(t, Op) and t.op in ('==', 'is') and len(t.args) == 2 and isinstance(t.args[0], Attr) and t.args[0].name == 'operator' and pol_:
+            rhs = unglobal(t.args[1])
+            side = None
+            if isinstance(rhs, New) and rhs.cls in ('UnaryOperatorDefinition', 'BinaryOperatorDefinition'):
+                side = rhs.cls
+            elif isinstance(rhs, Call) and isinstance(rhs.func, BoundMethod) and isinstance(rhs.func.recv, ClassRef) and rhs.func.recv.name in ('UnaryOperatorDefinition', 'BinaryOperatorDefinition'):
+                side = rhs.func.recv.name
+            if side:
+                out.append((t.args[0].base, only('HplUnaryOperator' if side == 'UnaryOperatorDefinition' else 'HplBinaryOperator')))
+            return
+        if isinstance(t, Attr) and isinstance(t.base, Attr) and t.base.name == 'operator' and pol_ and t.name.startswith('is_'):
+            un = m.classes['UnaryOperatorDefinition'].resolve(t.name) is not None if 'UnaryOperatorDefinition' in m.classes else False
+            bi = m.classes['BinaryOperatorDefinition'].resolve(t.name) is not None if 'BinaryOperatorDefinition' in m.classes else False
+            if un != bi:
+                out.append((t.base.base, only('HplUnaryOperator' if un else 'HplBinaryOperator')))
+
+    def classes_of(X: Term, facts: List):
+        bt = ev.type_of(X)
+        if bt is None or bt.name not in ast_names:
+            return None
+        cands = {k.name for k in m.subclasses(bt)}
+        narrowed = False
+        for (Y, fn) in facts:
+            if Y != X and not (isinstance(Y, Ite) and X in (Y.a, Y.b)):
+                continue
+            cands = fn(cands)
+            narrowed = True
+        return bt, cands, narrowed
+    hits: Dict[Tuple[str, str], Tuple[List[str], str]] = {}
+
+    def children(t: Term):
+        if isinstance(t, Op):
+            return t.args
+        if isinstance(t, Call):
+            return (t.func,) + tuple(t.args) + tuple(v for _, v in t.kwargs)
+        if isinstance(t, BoundMethod):
+            return (t.recv,)
+        if isinstance(t, TupleT):
+            return t.items
+        if isinstance(t, New):
+            return tuple(v for _, v in t.fields)
+        if isinstance(t, Sub):
+            return (t.base, t.index)
+        if isinstance(t, Template):
+            return t.parts
+        if isinstance(t, Fmt):
+            return (t.value,)
+        if isinstance(t, Comp):
+            return (t.elt,) + tuple(it for _, it, _ in t.gens)
+        if isinstance(t, Store):
+            return (t.target, t.value)
+        return ()
+
+    def check(t: Term, facts: List, fi: FunctionInfo, line: int):
+        if isinstance(t, Op) and t.op in ('and', 'or'):
+            f_ = list(facts)
+            for a in t.args:
+                check(a, f_, fi, line)
+                facts_of(a, t.op == 'and', f_)
+            return
+        if isinstance(t, Ite):
+            check(t.test, facts, fi, line)
+            fa = list(facts)
+            facts_of(t.test, True, fa)
+            check(t.a, fa, fi, line)
+            fb = list(facts)
+            facts_of(t.test, False, fb)
+            check(t.b, fb, fi, line)
+            return
+        if type(t).__name__ == 'Raises':
+            return
+        if isinstance(t, (Attr, BoundMethod)):
+            base = t.base if isinstance(t, Attr) else t.recv
+            check(base, facts, fi, line)
+            name = t.name
+            if isinstance(base, (Sym, Attr, Call)) and not name.startswith('__'):
+                got = classes_of(base, facts)
+                if got is not None:
+                    bt, cands, narrowed = got
+                    if not defines(bt, name):
+                        ks = [m.classes[n] for n in cands if m.is_leaf(m.classes[n])] if narrowed else [k for k in m.subclasses(bt) if m.is_leaf(k)]
+                        bad = sorted(k.name for k in ks if not defines(k, name))
+                        if bad:
+                            hits.setdefault((fi.qualname, f'{str(base)[:50]}.{name}'), (bad[:4], f'{fi.module.relpath}:{line}'))
+            return
+        for ch in children(t):
+            check(ch, facts, fi, line)
+    n = 0
+    for fi in m.all_functions():
+        if fi.module.name.endswith('_unused'):
+            continue
+        args = {}
+        for a_ in fi.node.args.args + fi.node.args.kwonlyargs:
+            k = ctx.ev.ann_class(a_.annotation, fi.module) if a_.annotation is not None else None
+            if a_.arg == 'self' and fi.cls is not None:
+                k = fi.cls
+            args[a_.arg] = Sym(a_.arg, k.name if k else None)
+        try:
+            outs = ev.run(fi, args, self_cls=fi.cls) if fi.cls is not None else ev.run(fi, args)
+        except AnalysisError:
+            continue
+        n += 1
+        if mode == 'asserts':
+            for o in outs:
+                for at in o.asserts:
+                    # the tests made before the assertion was reached
+                    depth = max([d_ for d_ in ev.assert_depth.get((fi.key, at), []) if d_ <= len(o.guards)] or [len(o.guards)])
+                    gfacts: List = []
+                    for g, pol_ in o.guards[:depth]:
+                        facts_of(g, pol_, gfacts)
+                    claim: List = []
+                    facts_of(at, True, claim)
+                    for X, fn in claim:
+                        if isinstance(X, Ite):
+                            continue    # about a value chosen between two others: not a statement about one tested value
+                        bt = ev.type_of(X)
+                        if bt is None or bt.name not in ast_names:
+                            continue
+                        cur = {k.name for k in m.subclasses(bt)}
+                        if not any(Y == X for Y, _ in gfacts):
+                            continue    # nothing tested here: a precondition / invariant stated by the assertion, not a conclusion
+                        for Y, gfn in gfacts:
+                            if Y == X:
+                                cur = gfn(cur)
+                        leaf = {n_ for n_ in cur if m.is_leaf(m.classes[n_])}
+                        rest = sorted(leaf - fn(set(leaf)))
+                        if rest:
+                            hits.setdefault((fi.qualname, str(at)[:70]), (rest[:4], f'{fi.module.relpath}:{o.lineno}'))
+            continue
+        for o in outs:
+            facts: List = []
+            for a in o.asserts:
+                facts_of(a, True, facts)    # asserts are the type annotations of this code base (order against the guards is not recorded)
+            for g, pol_ in o.guards:
+                check(g, facts, fi, o.lineno)
+                facts_of(g, pol_, facts)
+            # (the text of an error that is being raised anyway is not judged)
+            for t in list(o.effects) + ([o.value] if o.value is not None and o.kind != 'raise' else []) + list(o.asserts):
+                check(t, facts, fi, o.lineno)
+    for (fn, acc), (bad, where) in sorted(hits.items()):
+        if mode == 'asserts':
+            r.fail(f'{fn}:assert {acc}', f'{fn} asserts {acc} on a path whose tests still allow {" / ".join(bad)}: AssertionError on a well-formed input of that kind', where)
+        else:
+            r.fail(f'{fn}:{acc}', f'{fn} reads {acc} where the value can still be a {" / ".join(bad)} (no test on the way rules these out): AttributeError on a well-formed input of that kind', where)
+    r.counts['functions analysed'] = n
+    r.floor('functions analysed', n, 500)
+    return r
+
+
+def X14(ctx: Ctx) -> RuleResult:
+    return X13(ctx, 'asserts')
+
+
 # ======================================================================= X2
 def X2(ctx: Ctx) -> RuleResult:
     r = RuleResult('X2', 'subscripts vs arity: call.arguments[k] under a `fun.name == F` test stays below the smallest overload arity of F unless a len() test dominates it')
@@ -1290,7 +1520,7 @@ def _is_mapping_expr(ctx: Ctx, fi: FunctionInfo, e: ast.expr) -> bool:
     return False
 
 
-RULES = {'X1': X1, 'X2': X2, 'X3a': X3a, 'X3b': X3b, 'X4': X4, 'X5': X5, 'X5r': X5r, 'X6': X6, 'X8': X8, 'X9': X9, 'X10': X10, 'X12': X12}
+RULES = {'X1': X1, 'X2': X2, 'X3a': X3a, 'X3b': X3b, 'X4': X4, 'X5': X5, 'X5r': X5r, 'X6': X6, 'X8': X8, 'X9': X9, 'X10': X10, 'X12': X12, 'X13': X13, 'X14': X14}
 
 
 # ====================================================================== X3c
